@@ -160,7 +160,7 @@ func c12Sample(rng *rand.Rand, n int) []string {
 // C12 — the shim answers every call and survives any call order.
 func C12(r *core.Run) {
 	r.Level = "exploration"
-	r.SetRule("websockets.Proxy driven in-process (race-built worker with the verif hooks, agent's GODEBUG defaults, real gorilla backend). (i) sequential histories over the 18-symbol alphabet {open: valid|malformed URL|upgrade refused; data: valid|unknown|closed|malformed JSON|wrong msg type; poll/close: valid|unknown|closed|malformed; backend-send; backend-close}: bounded-exhaustive: every history up to length 4 that a static session model enables (thorough: plus sampled histories of length 5-7), each followed by a wind-down and a liveness probe on the same handler; (ii) concurrent pairs data‖close, close‖close, poll‖close, data‖backend-close, poll‖backend-close, open‖poll(guessed id) under hook schedules that park one goroutine at a hook until the other has passed a second point (2 s safety timeout), repeated; (iii) unforced stress: 8-16 goroutines issuing data/poll/close on one session while the backend talks and then client or backend closes; (iv) one idle poll that must time out by itself. class = history | pair/schedule | stress shape")
+	r.SetRule("websockets.Proxy driven in-process (race-built worker with the verif hooks, agent's GODEBUG defaults, real gorilla backend). (i) sequential histories over the 18-symbol alphabet {open: valid|malformed URL|upgrade refused; data: valid|unknown|closed|malformed JSON|wrong msg type; poll/close: valid|unknown|closed|malformed; backend-send; backend-close}: bounded-exhaustive: every history up to length 4 that a static session model enables (thorough: plus sampled histories of length 5-7), each followed by a wind-down and a liveness probe on the same handler; (ii) concurrent pairs data‖close, close‖close, poll‖close, data‖backend-close, poll‖backend-close, open‖poll(guessed id) under hook schedules that park one goroutine at a hook until the other has passed a second point (2 s safety timeout), repeated; (iii) unforced stress: 8-16 goroutines issuing data/poll/close on one session while the backend talks and then client or backend closes; (iv) one idle poll that must time out by itself; (v) bounded-exhaustive mixed-ID data batches: every composition up to length 3 (thorough 4) of entries naming {open session A, open session B, session closed by the client, session closed by the backend and reported by a poll, unknown id}, judged for the 400 rule, for routing (no message on a backend connection its entry did not name) and, when all entries are valid, delivery; (vi) a push-only backend that never reads from the websocket (no close handshake is ever answered): every script up to length 3 over {data, poll, wait until more is pushed than the shim queues} followed by close, after which the backend must see the agent tear the connection down. class = history | pair/schedule | stress shape")
 	r.Assume("a session counts as closed once a close answered 200 or a poll answered 400 for it; between a backend-initiated close and that poll, data may answer 200 or 400; complete delivery after a backend close is only demanded when no client data/close call on that session intervened")
 	bin := r.MustBuild(r.BuildWorker())
 	godebug := "GODEBUG=" + shimGodebug(r)
@@ -199,8 +199,50 @@ func C12(r *core.Run) {
 	for i := 0; i < r.Pick(120, 1500); i++ {
 		stress = append(stress, c12Case{ID: fmt.Sprintf("st%d-%d", r.Seed, i), Kind: "stress", Seed: rng.Int63(), G: 8 + rng.Intn(9)})
 	}
+	// mixed-ID data batches: every composition up to length 3 (thorough: 4) over
+	// A, B = open sessions, C = closed by the client, D = closed by the backend and
+	// reported by a poll, U = never existed; plus the empty batch
+	var batch, noread []c12Case
+	var comps [][]string
+	var grow func(prefix []string, max int)
+	grow = func(prefix []string, max int) {
+		comps = append(comps, append([]string(nil), prefix...))
+		if len(prefix) == max {
+			return
+		}
+		for _, k := range []string{"A", "B", "C", "D", "U"} {
+			grow(append(prefix, k), max)
+		}
+	}
+	grow(nil, r.Pick(3, 4))
+	for i, c := range comps {
+		batch = append(batch, c12Case{ID: fmt.Sprintf("b%d", i), Kind: "batch", Ops: c, Rep: i})
+	}
+	// push-only backend that never reads: every script up to length 3 over
+	// {data, poll, wait-until-the-queue-overflows}, then close
+	var scripts [][]string
+	var growS func(prefix []string)
+	growS = func(prefix []string) {
+		scripts = append(scripts, append(append([]string(nil), prefix...), "c"))
+		if len(prefix) == 3 {
+			return
+		}
+		for _, k := range []string{"d", "p", "w"} {
+			growS(append(prefix, k))
+		}
+	}
+	growS(nil)
+	periods := []int{5}
+	if !r.Quick() {
+		periods = []int{1, 5, 20}
+	}
+	for _, ms := range periods {
+		for i, sc := range scripts {
+			noread = append(noread, c12Case{ID: fmt.Sprintf("n%d-%d", ms, i), Kind: "noread", Ops: sc, Rep: ms})
+		}
+	}
 	all := map[string]c12Case{}
-	for _, l := range [][]c12Case{hist, forced, stress} {
+	for _, l := range [][]c12Case{hist, forced, stress, batch, noread} {
 		for _, c := range l {
 			all[c.ID] = c
 		}
@@ -249,7 +291,7 @@ func C12(r *core.Run) {
 	}
 	if r.OnlyCase >= 0 {
 		// replay: one case of the concatenated list hist, forced, stress
-		cat := append(append(append([]c12Case{}, hist...), forced...), stress...)
+		cat := append(append(append(append(append([]c12Case{}, hist...), forced...), stress...), batch...), noread...)
 		if r.OnlyCase < len(cat) {
 			launch(cat[r.OnlyCase:r.OnlyCase+1], 1, 1)
 		}
@@ -258,6 +300,7 @@ func C12(r *core.Run) {
 		launch(hist, 7, 4)
 		launch(forced, 7, 1) // the hook scheduler is process-wide: one forced case at a time per process
 		launch(stress, 3, 1)
+		launch(append(append([]c12Case{}, batch...), noread...), 2, 4)
 	}
 	wg.Wait()
 
@@ -340,6 +383,12 @@ func C12(r *core.Run) {
 			statusMix[key+" -> "+res.Statuses]++
 		case "stress":
 			r.Case(fmt.Sprintf("stress:g=%d:%s", c.G, res.Statuses))
+		case "batch":
+			r.Case("data-batch:[" + strings.Join(c.Ops, ",") + "]->" + res.Statuses)
+			r.Add("mixed_id_data_batches", 1)
+		case "noread":
+			r.Case(fmt.Sprintf("push-only-backend:%s|every %dms", strings.Join(c.Ops, ","), c.Rep))
+			r.Add("push_only_backend_scripts", 1)
 		case "idle":
 			r.Case("idle-poll")
 			r.Set("idle_poll", res.Statuses)
@@ -379,7 +428,7 @@ func C12(r *core.Run) {
 	r.Set("hook_hits", hits)
 	r.Set("max_case_duration_ms", maxMs)
 	r.JudgeRaces(core.ParseRaceLogs(filepath.Join(r.WorkDir, "race-")))
-	minCases := exhaustive + len(forced) + len(stress) - 50
+	minCases := exhaustive + len(forced) + len(stress) + len(batch) + len(noread) - 50
 	if r.OnlyCase >= 0 {
 		minCases = 1
 	}
@@ -394,6 +443,10 @@ func c12Describe(c c12Case) string {
 		return fmt.Sprintf("%s/%s rep %d", c.Pair, c.Sched, c.Rep)
 	case "stress":
 		return fmt.Sprintf("seed %d, %d goroutines", c.Seed, c.G)
+	case "batch":
+		return "data batch [" + strings.Join(c.Ops, ",") + "] (A,B open; C closed by client; D closed by backend; U unknown)"
+	case "noread":
+		return fmt.Sprintf("push-only backend (never reads, pushes every %d ms), script [%s]", c.Rep, strings.Join(c.Ops, " "))
 	}
 	return c.Kind
 }
